@@ -51,14 +51,18 @@ func (e *Engine) BuildTree(ctx context.Context, subject relationtuple.Subject, r
 	return
 }
 
+// buildTree expands the subject set level by level. A subject set is expanded
+// only once, where it is reached first. Because the levels are built in order,
+// that is also where it is reached with the most depth left, so that everything
+// within the depth limit ends up in the tree regardless of the order in which
+// the storage returns the relationships.
 func (e *Engine) buildTreeRecursive(ctx context.Context, subject relationtuple.Subject, restDepth int) (*relationtuple.Tree, error) {
 	// global max-depth takes precedence when it is the lesser or if the request max-depth is less than or equal to 0
 	if globalMaxDepth := e.d.Config(ctx).MaxReadDepth(); restDepth <= 0 || globalMaxDepth < restDepth {
 		restDepth = globalMaxDepth
 	}
 
-	subSet, isSubjectSet := subject.(*relationtuple.SubjectSet)
-	if !isSubjectSet {
+	if _, isSubjectSet := subject.(*relationtuple.SubjectSet); !isSubjectSet {
 		// is SubjectID
 		return &relationtuple.Tree{
 			Type:    ketoapi.TreeNodeLeaf,
@@ -66,59 +70,68 @@ func (e *Engine) buildTreeRecursive(ctx context.Context, subject relationtuple.S
 		}, nil
 	}
 
-	ctx, wasAlreadyVisited := graph.CheckAndAddVisited(ctx, subject)
-	if wasAlreadyVisited {
-		return nil, nil
+	type todo struct {
+		node      *relationtuple.Tree
+		restDepth int
 	}
-
-	subTree := &relationtuple.Tree{
-		Type:    ketoapi.TreeNodeUnion,
+	root := &relationtuple.Tree{
+		Type:    ketoapi.TreeNodeLeaf,
 		Subject: subject,
 	}
+	ctx, _ = graph.CheckAndAddVisited(ctx, subject)
+	hasRelations := false
 
-	var (
-		rels     []*relationtuple.RelationTuple
-		nextPage string
-	)
-	// do ... while nextPage != ""
-	for ok := true; ok; ok = nextPage != "" {
-		var err error
-		rels, nextPage, err = e.d.RelationTupleManager().GetRelationTuples(
-			ctx,
-			&relationtuple.RelationQuery{
-				Relation:  &subSet.Relation,
-				Object:    &subSet.Object,
-				Namespace: &subSet.Namespace,
-			},
-			x.WithToken(nextPage),
-		)
-		if err != nil {
-			return nil, err
-		} else if len(rels) == 0 {
-			return nil, nil
-		}
+	for queue := []todo{{root, restDepth}}; len(queue) > 0; queue = queue[1:] {
+		node, restDepth := queue[0].node, queue[0].restDepth
+		subSet := node.Subject.(*relationtuple.SubjectSet)
 
-		if restDepth <= 1 {
-			subTree.Type = ketoapi.TreeNodeLeaf
-			return subTree, nil
-		}
-
-		children := make([]*relationtuple.Tree, len(rels))
-		for ri, r := range rels {
-			child, err := e.buildTreeRecursive(ctx, r.Subject, restDepth-1)
+		var nextPage string
+		// do ... while nextPage != ""
+		for ok := true; ok; ok = nextPage != "" {
+			rels, next, err := e.d.RelationTupleManager().GetRelationTuples(
+				ctx,
+				&relationtuple.RelationQuery{
+					Relation:  &subSet.Relation,
+					Object:    &subSet.Object,
+					Namespace: &subSet.Namespace,
+				},
+				x.WithToken(nextPage),
+			)
 			if err != nil {
 				return nil, err
 			}
-			if child == nil {
-				child = &relationtuple.Tree{
+			nextPage = next
+			if len(rels) == 0 {
+				break
+			}
+			if node == root {
+				hasRelations = true
+			}
+			if restDepth <= 1 {
+				// the subject set has relationships, but they are beyond the depth limit
+				break
+			}
+
+			node.Type = ketoapi.TreeNodeUnion
+			for _, r := range rels {
+				child := &relationtuple.Tree{
 					Type:    ketoapi.TreeNodeLeaf,
 					Subject: r.Subject,
 				}
+				node.Children = append(node.Children, child)
+				if _, isSubjectSet := r.Subject.(*relationtuple.SubjectSet); !isSubjectSet {
+					continue
+				}
+				var wasAlreadyVisited bool
+				if ctx, wasAlreadyVisited = graph.CheckAndAddVisited(ctx, r.Subject); !wasAlreadyVisited {
+					queue = append(queue, todo{child, restDepth - 1})
+				}
 			}
-			children[ri] = child
 		}
-		subTree.Children = append(subTree.Children, children...)
 	}
 
-	return subTree, nil
+	if !hasRelations {
+		return nil, nil
+	}
+	return root, nil
 }
